@@ -11,6 +11,13 @@ carrying the id of a call's request is the call's), and — for scenarios whose 
 the peer gave to its own request, never with the answer to another request).
 Clients started with protocol servers (`RMCClient.start(servers)`): the logout hooks' entries, returns and raises are
 log lines / marks that the extended model (NxModel/Nex/RmcClientX.lean) must predict, as well as how cleanup() ended.
+Traffic in both directions (`["preq", ...]`): the peer sends REQUESTS of its own — to the registered servers or to nobody —
+whose call ids come from the peer's own counter and so coincide with the ids of our outstanding calls; they are interleaved
+in every order with the responses. The model must predict which server's handle() is entered for each of them and every
+answer the client sends (protocol, call id, success/error); the oracle (`oracle_peer_requests`) demands, on the real run
+alone, that every received request was handed exactly once to the server registered for its protocol (with its method
+and body) or refused with Core::NotImplemented, and answered exactly once under its own call id — and `oracle` that no
+call of ours was completed by such a request.
 """
 import itertools, struct, multiprocessing, os
 import rmc_client_sim as R
@@ -22,7 +29,7 @@ M32 = 0xFFFFFFFF
 # ---------------------------------------------------------------- scenario construction
 def mk(n, perm, kinds, close_pos, close_kind, ypol, rng, start_id=1, extras=None, noresp=(), send_yields=None,
        late=None, after_close_calls=0, first_yield=1, fam="", addressed=False, servers=None, spawn_close=0,
-       second_close=None):
+       second_close=None, reply_yields=0):
     """n calls; responses delivered in the order `perm` (indices of calls); `extras[j]` = extra steps
     inserted before the j-th response (j = n: after the last); close after `close_pos` responses.
     addressed: the peer answers *request messages* (["ans", task, ...]: the response echoes whatever call id the
@@ -49,6 +56,14 @@ def mk(n, perm, kinds, close_pos, close_kind, ypol, rng, start_id=1, extras=None
         steps.append(["start", 1 if k in noresp else 0, (send_yields or {}).get(k, 0)])
         alloc(k); started(k)
     if first_yield: steps.append(["yield", first_yield])
+    pserial = [0]
+    def preq(proto, method, sel):
+        # the peer's own request; its call id: ("call", k) = the id of our k-th call, ("abs", v), ("next",) = the id our next call will get
+        if sel[0] == "call": cid = ids.get(sel[1], (start_id + sel[1]) & M32)
+        elif sel[0] == "next": cid = nxt
+        else: cid = sel[1] & M32
+        pserial[0] += 1
+        return ["preq", proto, method, cid, pserial[0]]
     serial = {}
     def resp(k, kind):
         s = serial.get(k, 0); serial[k] = s + 1
@@ -82,6 +97,8 @@ def mk(n, perm, kinds, close_pos, close_kind, ypol, rng, start_id=1, extras=None
                 steps.append(["req", e[1], 3, e[2]])
             elif e[0] == "raw":
                 steps.append(["raw", e[1]])
+            elif e[0] == "preq":
+                steps.append(preq(e[1], e[2], e[3]))
             y()
         if j < n:
             k = perm[j]
@@ -94,6 +111,7 @@ def mk(n, perm, kinds, close_pos, close_kind, ypol, rng, start_id=1, extras=None
     if addressed: sc["addressed"] = 1
     if servers: sc["servers"] = servers
     if spawn_close: sc["spawn_close"] = 1
+    if reply_yields: sc["reply_yields"] = reply_yields
     return sc
 
 
@@ -159,13 +177,16 @@ def gen_scenarios(ctx):
         for _ in range(rng.choice([0, 0, 1, 2, 3])):
             j = rng.randint(0, n)
             ex = rng.choice([("unknown", rng.choice([0, 7, 100, M32, 0x80000000]), rng.choice(["ok", "err"])), ("nextid",),
-                             ("req", rng.choice([10, 0x7F, 0x123]), rng.randrange(1 << 32)), ("dup", rng.randrange(n), rng.choice(["ok", "err", "ok-empty", "err-nobit"]))])
+                             ("req", rng.choice([10, 0x7F, 0x123]), rng.randrange(1 << 32)), ("dup", rng.randrange(n), rng.choice(["ok", "err", "ok-empty", "err-nobit"])),
+                             ("preq", rng.choice([0x50, 0x50, 0x51, 10]), rand_method(rng), rng.choice([("call", rng.randrange(n)), ("call", rng.randrange(n)), ("next",), ("abs", rng.choice([0, 1, 2, 7, M32]))]))])
             extras.setdefault(j, []).append(ex)
         ck = rng.choice([None] + CLOSE_KINDS)
         adr = rng.random() < 0.5     # the peer answers request messages (echoing their ids) / sends ids computed here
+        srv = [rng.choice(HOOKS[:5]) for _ in range(rng.choice([1, 2]))] if rng.random() < 0.4 else None
         out.append(mk(n, perm, rkinds(rng, n), rng.randint(0, n) if ck else None, ck, yrand, rng, extras=extras, noresp=noresp,
                       late=late, send_yields=sy, after_close_calls=rng.choice([0, 0, 1, 2]) if ck else 0,
-                      first_yield=rng.choice([1, 1, 1, 2, 0]), addressed=adr, spawn_close=int(rng.random() < 0.25),
+                      first_yield=rng.choice([1, 1, 1, 2, 0]), addressed=adr, spawn_close=int(srv is not None or rng.random() < 0.25),
+                      servers=srv, reply_yields=rng.choice([0, 0, 0, 1, 2]),
                       fam="mixed:addressed" if adr else "mixed"))
     # F5: the call id counter wraps
     for start in (0xFFFFFFFE, 0xFFFFFFFF, 0, 0xFFFFFFFD):
@@ -182,6 +203,87 @@ def gen_scenarios(ctx):
                 out.append(mk(n, list(range(n)), rkinds(rng, n), 1, ck, y1, rng, extras={1: [("raw", raw)]}, fam="malformed"))
     out += gen_oneway(ctx)
     out += gen_servers(ctx)
+    out += gen_bidir(ctx)
+    return out
+
+
+# what a registered server's handle() does with a request of the peer is told by the method id (rmc_client_sim.FakeServer.handle):
+# low 4 bits: 1 return b"ack:"+body | 2 raise RMCError | 3 TypeError | 4 KeyError | 5 ValueError; next 4 bits: loop iterations it takes
+METHODS = [1, 1, 1, 1, 2, 3, 4, 5, 1 + 16, 1 + 16, 1 + 32, 1 + 48, 2 + 16, 3 + 32, 5 + 16]
+
+
+def rand_method(rng): return rng.choice(METHODS)
+
+
+def gen_bidir(ctx):
+    """F9: traffic in both directions on one connection. n calls of ours are outstanding; the peer sends m REQUESTS of its
+    own (to the servers the client was started with, or to an unregistered protocol) whose call ids come from ITS counter:
+    equal to ours ("both ends count from 1"), a shuffle of ours, overlapping partly, all the same, disjoint. They are
+    interleaved with the responses in every order (every permutation of the responses x every placement of the requests
+    among them), handlers that answer at once / later (the receive loop waits in them while responses queue up) / raise;
+    plus closures of every kind at every prefix, one-way requests, late calls, slow answers, the id counter wrapping."""
+    rng, quick = ctx.rng, ctx.tier == "quick"
+    out = []
+    def sels(variant, n, m, start):
+        if variant == "same":      # the peer counts from where we count
+            return [("abs", start + q) for q in range(m)]
+        if variant == "ours":      # some of our outstanding ids, in any order, possibly repeated
+            return [("call", rng.randrange(n)) for _ in range(m)]
+        if variant == "shuffle":
+            ks = list(range(max(n, m))); rng.shuffle(ks)
+            return [("call", k) for k in ks[:m]]
+        if variant == "partial":
+            return [("abs", start + n - 1 + q) for q in range(m)]
+        if variant == "one":       # every request under the id of one of our calls
+            k = rng.randrange(n)
+            return [("call", k)] * m
+        return [("abs", 1000 + q) for q in range(m)]
+    def one(n, perm, slots, variant, yp, nserv=None, close=None, start=1, fam=None, **kw):
+        nserv = rng.choice([1, 1, 2]) if nserv is None else nserv
+        ss = sels(variant, n, len(slots), start)
+        extras = {}
+        for slot, sel in zip(slots, ss):
+            proto = 0x50 + rng.randrange(nserv) if nserv and rng.random() < 0.85 else rng.choice([10, 0x21, 0x50 + nserv])
+            extras.setdefault(slot, []).append(("preq", proto, rand_method(rng), sel))
+        servers = [rng.choice(HOOKS[:5]) if close else ["ret"] for _ in range(nserv)]
+        cpos, ck = close if close else (None, None)
+        out.append(mk(n, perm, rkinds(rng, n), cpos, ck, YP[yp], rng, start_id=start, extras=extras, servers=servers or None,
+                      spawn_close=1, fam=fam or "bidir%d+%d:%s" % (n, len(slots), variant), **kw))
+    # exhaustive: 1..3 calls x 1..3 peer requests x every response order x every placement of the requests among the responses
+    for n in range(1, 4 if quick else 5):
+        for m in range(1, 4):
+            for perm in itertools.permutations(range(n)):
+                for slots in itertools.combinations_with_replacement(range(n + 1), m):
+                    for variant in ("same", "shuffle", rng.choice(["ours", "partial", "one", "disjoint"])):
+                        for yp in ("y1", "batch"):
+                            one(n, perm, slots, variant, yp)
+                    # a closure after some prefix (the handler may be executing), servers with logout hooks
+                    if m <= 2:
+                        one(n, perm, slots, rng.choice(["same", "shuffle", "ours"]), rng.choice(["y1", "batch", "rand"]),
+                            close=(rng.randint(0, n), rng.choice(CLOSE_KINDS)), fam="bidir%d+%d:close" % (n, m),
+                            second_close=rng.choice([None, None] + CLOSE_KINDS), reply_yields=rng.choice([0, 0, 1]))
+    # 4 calls (quick: 1..2 requests, one id variant per placement), 5..6 calls sampled
+    if quick:
+        for m in (1, 2):
+            for perm in itertools.permutations(range(4)):
+                for slots in itertools.combinations_with_replacement(range(5), m):
+                    one(4, perm, slots, rng.choice(["same", "same", "shuffle", "ours"]), rng.choice(["y1", "batch"]))
+    for _ in range(600 if quick else 60000):
+        n = rng.randint(1, 6); m = rng.randint(1, 6)
+        perm = list(range(n)); rng.shuffle(perm)
+        slots = sorted(rng.randint(0, n) for _ in range(m))
+        close = (rng.randint(0, n), rng.choice(CLOSE_KINDS)) if rng.random() < 0.3 else None
+        one(n, perm, slots, rng.choice(["same", "same", "shuffle", "ours", "partial", "one", "disjoint"]), rng.choice(["y1", "batch", "rand", "rand"]),
+            nserv=rng.choice([0, 1, 1, 2, 3]), close=close, fam="bidir:mixed",
+            noresp={k for k in range(n) if rng.random() < 0.15}, late={k: rng.randint(0, n) for k in range(n) if rng.random() < 0.2},
+            send_yields={k: rng.randint(1, 3) for k in range(n) if rng.random() < 0.2}, reply_yields=rng.choice([0, 0, 1, 2]),
+            addressed=rng.random() < 0.3, first_yield=rng.choice([1, 1, 2, 0]))
+    # the id counter wraps while the peer's requests use the same numbers
+    for start in (0xFFFFFFFE, 0xFFFFFFFF, 0):
+        for n in (1, 2, 3):
+            for perm in itertools.permutations(range(n)):
+                for slots in itertools.combinations_with_replacement(range(n + 1), 2):
+                    one(n, perm, slots, rng.choice(["same", "shuffle"]), rng.choice(["y1", "batch"]), start=start, fam="bidir:wrap")
     return out
 
 
@@ -267,6 +369,124 @@ def parse_resp(data):
     return cid, "rmc %d" % (code | 0x80000000)
 
 
+def parse_req(data):
+    """independent reader of a REQUEST datagram: -> (protocol, call_id, method, body) or None"""
+    if len(data) < 5: return None
+    (ln,) = struct.unpack_from("<I", data)
+    p = data[4:]
+    if ln != len(p) or not p[0] & 0x80: return None
+    proto, q = p[0] & 0x7F, p[1:]
+    if proto == 0x7F:
+        if len(q) < 2: return None
+        proto, q = struct.unpack_from("<H", q)[0], q[2:]
+    if len(q) < 8: return None
+    cid, method = struct.unpack_from("<II", q)
+    return proto, cid, method, q[8:]
+
+
+def parse_answer(data):
+    """independent reader of a RESPONSE datagram the client sent: -> (protocol, call_id, ok, body | error code) or None"""
+    if len(data) < 6: return None
+    (ln,) = struct.unpack_from("<I", data)
+    p = data[4:]
+    if ln != len(p) or p[0] & 0x80: return None
+    proto, q = p[0] & 0x7F, p[1:]
+    if proto == 0x7F:
+        if len(q) < 2: return None
+        proto, q = struct.unpack_from("<H", q)[0], q[2:]
+    if len(q) < 9: return None
+    if q[0]:
+        cid, method = struct.unpack_from("<II", q, 1)
+        return proto, cid, True, (method, q[9:])
+    if len(q) != 9: return None
+    code, cid = struct.unpack_from("<II", q, 1)
+    return proto, cid, False, code
+
+
+NOT_IMPLEMENTED = 0x80010002    # Core::NotImplemented
+
+
+def oracle_peer_requests(sim, crash_at):
+    """traffic in the other direction, judged on the real run only: every REQUEST the receive loop took from the transport
+    is handed exactly once to the handle() of the server registered for its protocol — with its method and body, in the
+    atomic section that received it — or, when no server is registered for the protocol, refused with Core::NotImplemented;
+    and it is answered exactly once, with a message carrying ITS call id, when its handler ends. Whether one of our
+    calls is outstanding under the same call id is irrelevant: the peer's call ids are its own."""
+    log, bad = sim.oplog, []
+    nserv = len(sim.sc.get("servers") or [])
+    disp = {}
+    for idx, srv, method, body in sim.dispatches:
+        disp.setdefault(idx, []).append((srv, method, body))
+    expected = []       # the answers the peer must get, in order: (call id, protocol, ok, payload or None)
+    handlerrets = [(i, l) for i, l in enumerate(log) if l.startswith("handlerret ")]
+    used = set()
+    n_disp_ok = 0
+    for i, l in enumerate(log):
+        if not l.startswith("recv ") or (crash_at is not None and i >= crash_at): continue
+        h = l[5:]
+        r = parse_req(bytes.fromhex(h) if h != "-" else b"")
+        if r is None: continue
+        proto, cid, method, body = r
+        mine = [c for c in sim.callers if c["sent_id"] == cid and not c["noresp"] and c["call_at"] < i and (c["outcome"] is None or c["done_at"] > i)]
+        ctxt = " (call id %d is also the id of the outstanding call of task %s)" % (cid, ",".join(str(c["task"]) for c in mine)) if mine else ""
+        got = disp.get(i, [])
+        if 0x50 <= proto < 0x50 + nserv:
+            want = [(proto - 0x50, method, body.hex())]
+            if got != want:
+                bad.append(("peer-request-not-dispatched", "the peer's request (protocol 0x%x, method %d, call id %d, body %r) received at op %d%s was handed to %s; "
+                            "it must be handed exactly once to server %d registered for its protocol" % (
+                                proto, method, cid, body, i, ctxt, "no server" if not got else "servers/methods/bodies %r" % got, proto - 0x50)))
+                continue
+            n_disp_ok += 1
+            # its handler's end (handlers run one at a time: the receive loop waits in them)
+            hr = next(((j, x) for j, x in handlerrets if j > i and j not in used), None)
+            if hr is not None:
+                used.add(hr[0])
+                ok = hr[1].endswith(" 1")
+                expected.append((cid, proto, ok, (method | 0x8000, b"ack:" + body) if ok else None, i, ctxt))
+        else:
+            if got:
+                bad.append(("peer-request-misdispatched", "the peer's request for the unregistered protocol 0x%x (call id %d) received at op %d was handed to %r" % (proto, cid, i, got)))
+            expected.append((cid, proto, False, NOT_IMPLEMENTED, i, ctxt))
+    if len(sim.dispatches) != n_disp_ok and not any(k == "peer-request-not-dispatched" for k, _ in bad):
+        bad.append(("spurious-dispatch", "handle() of a server was entered %d times for %d received requests: %r" % (len(sim.dispatches), n_disp_ok, sim.dispatches)))
+    answers = []
+    for idx, hexd in sim.sends_at:
+        a = parse_answer(bytes.fromhex(hexd))
+        answers.append(a if a is not None else ("unparsable", hexd))
+    exp = [(p, c, ok) for c, p, ok, _, _, _ in expected]
+    real = [(a[0], a[1], a[2]) if a[0] != "unparsable" else a for a in answers]
+    if exp != real and not bad:
+        # the first request whose answer is missing / wrong
+        k = next((j for j in range(max(len(exp), len(real))) if j >= len(exp) or j >= len(real) or exp[j] != real[j]), 0)
+        if k < len(expected):
+            c, p, ok, _, i, ctxt = expected[k]
+            bad.append(("peer-request-answer", "the peer's request with call id %d (protocol 0x%x) received at op %d%s must be answered exactly once with a %s carrying call id %d; "
+                        "the client sent (protocol, call id, success) = %r where %r are due" % (c, p, i, ctxt, "success" if ok else "error", c, real, exp)))
+        else:
+            bad.append(("peer-request-answer", "the client sent answers nobody asked for: (protocol, call id, success) = %r where %r are due" % (real, exp)))
+    elif not bad:
+        for (c, p, ok, payload, i, ctxt), a in zip(expected, answers):
+            if payload is not None and a[3] != payload:
+                bad.append(("peer-request-answer", "the answer to the peer's request with call id %d received at op %d%s carries %r, expected %r" % (c, i, ctxt, a[3], payload)))
+                break
+    return bad
+
+
+def n_colliding(sim):
+    """how many received peer requests carried the id of a call of ours that was outstanding (registered, not yet answered) at that moment"""
+    n = 0
+    for i, l in enumerate(sim.oplog):
+        if l.startswith("recv ") and l[5:] != "-":
+            r = parse_req(bytes.fromhex(l[5:]))
+            if r and any(c["sent_id"] == r[1] and not c["noresp"] and c["call_at"] < i and (c["outcome"] is None or c["done_at"] > i)
+                         and not any(sim.oplog[j].startswith("recv ") and (parse_resp(bytes.fromhex(sim.oplog[j][5:])) or (None,))[0] == r[1]
+                                     for j in range(c["call_at"] + 1, i) if sim.oplog[j][5:] != "-")
+                         for c in sim.callers):
+                n += 1
+    return n
+
+
 def oracle(sim):
     """the property, judged on the real run only. returns [(key, why)]"""
     log = sim.oplog
@@ -317,6 +537,18 @@ def oracle(sim):
             if closed_at is None or closed_at > c["done_at"]:
                 bad.append(("spurious-closed", "task %d raised 'closed' but nothing closed the connection" % t))
         else:
+            if first != c["outcome"]:
+                # was the call completed by a REQUEST of the peer that happened to carry the same call id?
+                for i in range(c["call_at"] + 1, stop):
+                    if log[i].startswith("recv ") and (crash_at is None or i < crash_at):
+                        h = log[i][5:]
+                        q = parse_req(bytes.fromhex(h) if h != "-" else b"")
+                        if q and q[1] == c["sent_id"] and c["outcome"] == "body " + R.hx(q[3]):
+                            bad.append(("request-taken-for-response", "task %d (call id %d) returned %r: that is the body of a REQUEST the peer sent (protocol 0x%x, method %d, "
+                                        "received at op %d) under call id %d of its own numbering, not a response; %s" % (
+                                            t, c["sent_id"], c["outcome"], q[0], q[2], i, q[1],
+                                            "the first response carrying its id was %r" % first if first is not None else "no response carrying its id had arrived")))
+                            break
             if first is None:
                 bad.append(("cross-talk", "task %d (call id %d) got %r but no response with its id had arrived" % (t, c["sent_id"], c["outcome"])))
             elif first != c["outcome"]:
@@ -325,6 +557,7 @@ def oracle(sim):
                 bad.append(("returned-after-close", "task %d returned %r after the connection had closed" % (t, c["outcome"])))
     if sim.sc.get("addressed"):
         bad += oracle_addressed(sim, crash_at)
+    bad += oracle_peer_requests(sim, crash_at)
     return bad
 
 
@@ -380,6 +613,12 @@ def compare(sim, outs):
     hooks_real = {}
     for idx, srv in sim.hook_entries:
         hooks_real.setdefault(idx, []).append(srv)
+    disp_real, sends_real = {}, {}
+    for idx, srv, method, body in sim.dispatches:
+        disp_real.setdefault(idx, []).append("dispatch %d %d" % (srv, method))
+    for idx, hexd in sim.sends_at:
+        a = parse_answer(bytes.fromhex(hexd))
+        sends_real.setdefault(idx, []).append("%d %d %d" % (a[0], a[1], int(a[2])) if a else "unparsable " + hexd)
     for pos, (l, o) in enumerate(zip(log, outs[1:-2])):
         parts = o.split(" ")
         while parts and parts[-1] in ("SPECDIFF", "H-IDS-BROKEN"):
@@ -392,6 +631,15 @@ def compare(sim, outs):
             diffs.append(("logout-hooks", "%s: model enters hooks %r, real %r" % (l[:40], model_hooks, hooks_real.get(idx_map[pos], []))))
         if l in ("hookret", "hookraise") and "nohook" in items:
             diffs.append(("hook", "%s although no logout hook is executing in the model" % l))
+        # the peer's own requests: which server's handle() is entered, which answers are sent (protocol, call id, success)
+        model_disp = [" ".join(x.split(" ")[:3]) for x in items if x.startswith("dispatch ")]
+        if model_disp != disp_real.get(idx_map[pos], []):
+            diffs.append(("dispatch", "%s: model %r, real handle() entries %r" % (l[:60], [x for x in items if x.startswith("dispatch ")], disp_real.get(idx_map[pos], []))))
+        model_ans = [x.split(" ", 1)[1] for x in items if x.startswith("answer ")] + [x.split(" ", 1)[1] + " 0" for x in items if x.startswith("notimpl ")]
+        if model_ans != sends_real.get(idx_map[pos], []):
+            diffs.append(("answer", "%s: model sends (protocol, call id, success) %r, real %r" % (l[:60], model_ans, sends_real.get(idx_map[pos], []))))
+        if l.startswith("handlerret ") and "nohandler" in items:
+            diffs.append(("handler", "%s although no request handler is executing in the model" % l))
         if l.startswith("call "):
             sent = [x for x in items if x.startswith("sent ")]
             done = [x for x in items if x.startswith("done ")]
@@ -444,7 +692,7 @@ def _work(chunk):
     res = []
     for sim in sims:
         res.append({"oplog": sim.oplog, "callers": sim.callers, "final": sim.final, "warn_after": sim.warn_after, "sc": sim.sc,
-                    "recv_addr": sim.recv_addr, "hook_entries": sim.hook_entries})
+                    "recv_addr": sim.recv_addr, "hook_entries": sim.hook_entries, "dispatches": sim.dispatches, "sends_at": sim.sends_at})
     return res
 
 
@@ -510,7 +758,11 @@ def run(ctx):
                 "1..4 requests (5: thorough; 5-6 sampled) with a peer answering every request message, one-way included, in every order (success/error), "
                 "plus a late request / closure / wrap; clients started with 1..3 protocol servers whose logout hooks return, return late, wait until no "
                 "call is outstanding, never return or raise x closure of every kind (each in its own task) after every prefix of every response order "
-                "of 1..3 calls (4: thorough). Each run's op log is replayed through the Lean model; a case counts as distinct non-trivial per distinct "
+                "of 1..3 calls (4: thorough); traffic in both directions: 1..3 calls (4: thorough) x 1..3 REQUESTS of the peer whose call ids equal / shuffle / "
+                "overlap / repeat / avoid the ids of our outstanding calls x every response order x every placement of the requests among the responses, "
+                "to 1..2 registered servers (handlers answering at once, late, raising RMCError / other exceptions) or to unregistered protocols, plus "
+                "closures at every prefix, 4 calls x 1..2 requests, sampled mixes up to 6 x 6 with one-way / late calls and slow answer sends, counter wrap. "
+                "Each run's op log is replayed through the Lean model; a case counts as distinct non-trivial per distinct "
                 "scenario with at least one call")
     ctx.assumptions.append("anyio/asyncio wake a task whose Event was set and run the code between two awaits atomically (trusted runtime); "
                            "RMCClient.client.send does not raise while RMCClient.closed is false (send failures are not modelled)")
@@ -524,6 +776,9 @@ def run(ctx):
     ctx.extra["model_lines"] = nlines
     ctx.extra["scenarios_differing_from_model"] = n_diff
     ctx.extra["permutations_exhaustive_up_to"] = 5 if ctx.tier == "quick" else 6
+    ctx.extra["peer_requests_received"] = sum(1 for sim in sims for l in sim.oplog if l.startswith("recv ") and parse_req(bytes.fromhex(l[5:]) if l[5:] != "-" else b"") is not None)
+    ctx.extra["peer_requests_dispatched"] = sum(len(sim.dispatches) for sim in sims)
+    ctx.extra["peer_requests_colliding_with_outstanding_call"] = sum(n_colliding(sim) for sim in sims)
     if n_diff and not ctx.violations and not ctx.known_hits:
         sim, o, diffs = first
         ctx.corr_break("rmcclient-model-correspondence", "real RMCClient and the Lean model disagree on %d of %d scenarios; first: %s" % (n_diff, len(sims), diffs[:3]),
